@@ -103,6 +103,12 @@ def build(case, collect, max_errors=None):
             params.append(f"{f['name']}=None" if f.get("default") == "none" or not f.get("default") else f"{f['name']}=7")
         else:
             params.append(f["name"])
+    npos = int(case.get("posonly") or 0)
+    if npos:
+        if npos > len(params):
+            raise HarnessError("bad posonly count")
+        params.insert(npos, "/")
+    pos_names = [f["name"] for f in ordered[:npos]]
     if case.get("kwvar") is not None:
         params.append("**kw")
         if case["kwvar"] != "any":
@@ -116,7 +122,15 @@ def build(case, collect, max_errors=None):
 
     def run(data):
         seen.clear()
-        wrapped(**data)
+        data = dict(data)
+        args = []
+        for n in pos_names:         # positional-only parameters are passed by position: a prefix of them
+            if n not in data:
+                break
+            args.append(data.pop(n))
+        if any(n in data for n in pos_names):
+            raise HarnessError("a positional-only parameter after a missing one cannot be passed")
+        wrapped(*args, **data)
         return oracle.plain(dict(seen.get("v") or {}))
     return run
 
@@ -303,11 +317,20 @@ def cases(draw):
         o["addition"] = False   # implied by the library
     o.update(extra)
     inp = []
-    for f in fields:
+    posonly = 0
+    if kind == "func" and draw(st.booleans()):
+        # the first parameters (in the order of the signature: required ones first) are positional-only
+        fields.sort(key=lambda f: bool(f.get("default") or not f.get("required", True)))
+        posonly = draw(st.integers(1, len(fields)))
+    gap = False
+    for i, f in enumerate(fields):
         if kind != "func" and draw(st.integers(0, 3)) == 0:
             f["alias_from"] = [f["name"] + "_alt"]
         how = draw(st.sampled_from(["good", "good", "bad", "bad", "missing"] + (["conflict", "conflict", "alias"] if f.get("alias_from") else [])))
+        if i < posonly and gap:
+            how = "missing"       # nothing can be passed by position after a missing positional-only parameter
         if how == "missing":
+            gap = gap or i < posonly
             continue
         v = draw(gen.conforming(f["type"]) if how in ("good", "conflict", "alias") else st.one_of(JUNK, JUNK, gen.conforming(f["type"])))
         if how == "alias":
@@ -330,6 +353,8 @@ def cases(draw):
         case["options"] = o
     if kwvar is not None:
         case["kwvar"] = kwvar
+    if posonly:
+        case["posonly"] = posonly
     return case
 
 
@@ -343,6 +368,8 @@ def campaign(ctx):
         r = run_case(case)
         ctx.label(f"status_{r['status']}")
         ctx.label(f"kind_{case['kind']}")
+        if case.get("posonly"):
+            ctx.label("positional_only_parameters")
         if r["status"] in ("accepted", "rejected"):
             ctx.label(f"failing_items_{min(r['n_failing'], 4)}")
             ctx.label(f"max_errors_{case.get('max_errors')}")
